@@ -13,6 +13,50 @@ import math
 import z3
 
 
+def _summands(t):
+    if z3.is_add(t):
+        out = []
+        for c in t.children():
+            out += _summands(c)
+        return out
+    return [t]
+
+
+def factor_ite(t, memo, alive):
+    """If(c, a + t, b + t)  ->  If(c, a, b) + t   (common summands of the two branches are pulled out, bottom-up):
+    brings `n*10 + i if i < 10 else n*100 + i` and `(n*10 if i < 10 else n*100) + i` to the same shape"""
+    k = t.get_id()
+    if k in memo:
+        return memo[k]
+    alive.append(t)
+    r = t
+    if z3.is_app(t) and t.num_args() > 0 and not z3.is_quantifier(t):
+        ch = [factor_ite(c, memo, alive) for c in t.children()]
+        if any(a.get_id() != b.get_id() for a, b in zip(ch, t.children())):
+            r = t.decl()(*ch)
+        if z3.is_app(r) and r.decl().kind() == z3.Z3_OP_ITE and z3.is_int(r):
+            c, x, y = r.children()
+            xs, ys = _summands(x), _summands(y)
+            yid = {}
+            for s in ys:
+                yid.setdefault(s.get_id(), []).append(s)
+            common, restx = [], []
+            for s in xs:
+                if yid.get(s.get_id()):
+                    yid[s.get_id()].pop()
+                    common.append(s)
+                else:
+                    restx.append(s)
+            if common and (restx or len(common) < len(ys)):
+                resty = [s for lst in yid.values() for s in lst]
+                xa = z3.Sum(restx) if len(restx) > 1 else (restx[0] if restx else z3.IntVal(0))
+                ya = z3.Sum(resty) if len(resty) > 1 else (resty[0] if resty else z3.IntVal(0))
+                r = z3.Sum([z3.If(c, xa, ya)] + common)
+    memo[k] = r
+    alive.append(r)
+    return r
+
+
 def canonicalise(formulas, domains, term_domains=()):
     """formulas: list of z3 Bool terms; domains: {var name: sorted list of ints}; term_domains: [(term, domain)]
     character-valued compound terms that are to be treated like variables.  returns new formula list"""
@@ -171,6 +215,7 @@ def canonicalise(formulas, domains, term_domains=()):
         memo[k] = r
         return r
 
+    formulas = [factor_ite(f, {}, alive) for f in formulas]
     out = [rewrite(f) for f in formulas]
     # the definitions are implied by the domain constraint of the variable; they are hypotheses
     return out + list(defs.values())
